@@ -54,7 +54,11 @@ where
         }
         let failing = out.verdict.is_err();
         if failing || i % RECHECK_EVERY == 0 {
-            let again = exec(sc);
+            let mut again = exec(sc);
+            // (the same rule as for the first execution: a panic anywhere in the execution is a failure)
+            if !again.panics.is_empty() && again.verdict.is_ok() {
+                again.verdict = Err(format!("panic during execution: {}", again.panics.join(" | ")));
+            }
             rechecked.fetch_add(1, Ordering::Relaxed);
             if again.obs != out.obs || again.verdict.is_err() != failing {
                 nondet.fetch_add(1, Ordering::Relaxed);
